@@ -362,3 +362,27 @@ Proof.
     destruct Ha as [<-|[<-|[<-|[]]]]; destruct Hb as [<-|[<-|[<-|[]]]]; vm_compute in Hs |- *; try reflexivity; discriminate Hs.
   - vm_compute. intros H. discriminate H.
 Qed.
+
+(* ---- a candidate that is not MED-comparable with the others leaves the list mis-ordered even after it has been withdrawn:
+   the LIVE set below is pairwise MED-comparable and the decision process prefers v_1 (lowest MED), yet after the history
+   "announce v_3, announce v_x (empty AS_PATH, eBGP), announce v_1, withdraw v_x" the head of the list is v_3.
+   (insert_sorted places v_1 by binary search after v_x, which beats it as eBGP over confederation-eBGP, without ever
+   comparing it with v_3; removing v_x does not re-sort.)  Found by the thorough tier of the C03 check. *)
+Definition v_mk (tag a addr : Z) (confed : bool) (segs : list (Z * list Z)) (med : Z) : cand :=
+  {| c_tag := tag; c_as := a; c_localas := 65000; c_id := 22; c_localid := 9; c_addr := Some addr; c_confed := confed;
+     c_pid := 0; c_llgr := false; c_nhinv := false; c_lp := 90; c_segs := segs; c_origin := 0; c_med := med; c_ts := 5 |}.
+Definition v_o : opts := {| o_always_med := false; o_ignore_aslen := true; o_ext_rid := false |}.
+Definition v_1 := v_mk 1 65100 167772163 true [(2, [65001])] 0.
+Definition v_3 := v_mk 3 65001 167772164 false [(2, [65001; 7])] 5.
+Definition v_x := v_mk 10 65001 167772173 false [] 5.
+
+Theorem stale_order_after_withdrawal_refuted :
+  exists o h,
+    (forall a b, In a (live h) -> In b (live h) -> med_applies o a b = true) /\
+    best (run o h) <> best (run o (map Announce (live h))).
+Proof.
+  exists v_o, [Announce v_3; Announce v_x; Announce v_1; Withdraw v_x]. split.
+  - assert (E : live [Announce v_3; Announce v_x; Announce v_1; Withdraw v_x] = [v_1; v_3]) by (vm_compute; reflexivity).
+    rewrite E. intros a b Ha Hb. cbn [In] in Ha, Hb. destruct Ha as [<-|[<-|[]]]; destruct Hb as [<-|[<-|[]]]; vm_compute; reflexivity.
+  - vm_compute. intros H. discriminate H.
+Qed.
